@@ -134,7 +134,7 @@ def i123(chk, repo, g):
 
 def i4(chk, repo, g):
     # I4: reads with size on open/load paths
-    entry_reach = g.reachable(["ceos_alos2.xarray:open_alos2", GETITEM, WRAPPER_GETITEM])
+    entry_reach = g.reachable(["ceos_alos2.xarray:open_alos2", GETITEM, repo.func(WRAPPER_GETITEM).key])
     n_reads = 0
     for k in sorted(entry_reach):
         fi = g.funcs[k]
@@ -148,7 +148,7 @@ def i4(chk, repo, g):
 
 def i6(chk, repo, g):
     # I6
-    load_reach = g.reachable([WRAPPER_GETITEM])
+    load_reach = g.reachable([repo.func(WRAPPER_GETITEM).key])
     allowed = {GETITEM: {"fs_open"}, f"{ARRAY}:read_chunk": {"fs_read"}}
     bad = []
     for k in sorted(load_reach):
